@@ -7,7 +7,7 @@
       [cons k r]   : r never moves the reader backwards and consumes at least
                      [k] bytes when it succeeds (what makes |rest|+1 fuel enough);
     plus [cost], a Hoare-style judgement for steps and allocation of
-    straight-line readers; [agree] (the candidate fix is conservative); [J]/[JT]
+    straight-line readers; [agree] (the repair 6dfa3ec is conservative); [J]/[JT]
     (allocation paid for by consumed input) and [AB] (allocation of the ACM
     info decoder).  The per-decoder theorems are assembled from them; the
     statements used by Props/C15.v are the [P_*] lemmas at the end. *)
@@ -172,6 +172,10 @@ Lemma nopanic_seek w o : nopanic (seek w o). Proof. intros s; discriminate. Qed.
 Lemma nofuel_seek w o : nofuel (seek w o). Proof. intros s; discriminate. Qed.
 Lemma nofuel_slice_from w o : nofuel (slice_from w o).
 Proof. intros s. unfold slice_from. destruct (has_len w o); discriminate. Qed.
+Lemma nofuel_slice_at fx w o : nofuel (slice_at fx w o).
+Proof. unfold slice_at. destruct (fx_bounds fx); [apply nofuel_seek | apply nofuel_slice_from]. Qed.
+Lemma nopanic_slice_at fx w o : fx_bounds fx = true -> nopanic (slice_at fx w o).
+Proof. intros H. unfold slice_at. rewrite H. apply nopanic_seek. Qed.
 Lemma nopanic_slice_from w o : o <= lenZ w -> nopanic (slice_from w o).
 Proof. intros H s. unfold slice_from. apply has_len_true in H. rewrite H. discriminate. Qed.
 
@@ -265,7 +269,7 @@ Ltac np := repeat first
   | rd_case ].
 Ltac nf := repeat first
   [ apply nofuel_ret | apply nofuel_fail | apply nofuel_panic | apply nofuel_read_n | apply nofuel_read_le | apply nofuel_read_be
-  | apply nofuel_alloc | apply nofuel_alloc_chk | apply nofuel_read_slice | apply nofuel_seek | apply nofuel_slice_from
+  | apply nofuel_alloc | apply nofuel_alloc_chk | apply nofuel_read_slice | apply nofuel_seek | apply nofuel_slice_from | apply nofuel_slice_at
   | apply nofuel_cap_guard
   | match goal with |- nofuel (bind _ _) => apply nofuel_bind; [ | intros ? ] end
   | apply nofuel_or_else | apply nofuel_catch_eof
@@ -402,7 +406,7 @@ Proof.
   - apply cons_or_else; [apply cons1_policy_list1 | apply cons1_policy_list2].
 Qed.
 
-(** closed witnesses against the faithful model *)
+(** closed witnesses against the code before the repairs *)
 Definition LCP_SIG : list Z :=
   [73; 110; 116; 101; 108; 40; 82; 41; 32; 84; 88; 84; 32; 76; 67; 80; 95; 80; 79; 76; 73; 67; 89; 95; 68; 65; 84; 65; 0; 0; 0; 0].
 (** signature, 3 reserved bytes, NumLists = 1, list (version 0x100, no
@@ -411,11 +415,11 @@ Definition custom_witness (size : list Z) : list Z :=
   LCP_SIG ++ [0; 0; 0; 1] ++ [0; 1; 0; 0; 100; 0; 0; 0] ++ size ++ [3; 0; 0; 0; 0; 0; 0; 0]
   ++ [239; 190; 173; 222; 1; 0; 2; 0; 3; 0; 1; 2; 3; 4; 5; 6] ++ [205; 205; 205; 205; 205; 205; 205; 205].
 
-Lemma policy_data_panics : run (policy_data faithful) (custom_witness [20; 0; 0; 0]) = RPanic.
+Lemma policy_data_panics : run (policy_data legacy) (custom_witness [20; 0; 0; 0]) = RPanic.
 Proof. vm_compute. reflexivity. Qed.
 Lemma policy_data_allocates :
   lenZ (custom_witness [0; 0; 0; 64]) = 80 /\
-  2147483648 <= res_alloc (run (policy_data faithful) (custom_witness [0; 0; 0; 64])).
+  2147483648 <= res_alloc (run (policy_data legacy) (custom_witness [0; 0; 0; 64])).
 Proof. vm_compute. split; [reflexivity | discriminate]. Qed.
 
 (** * LCP policy (ParsePolicy) *)
@@ -431,13 +435,17 @@ Proof. unfold parse_policy. nf; first [apply nofuel_parse_policy1 | apply nofuel
 
 (** * ACM *)
 
-Theorem lookup_acm_size_nopanic h : 32 <= lenZ h -> nopanic (lookup_acm_size h).
-Proof. intros H. unfold lookup_acm_size. apply has_len_true in H. rewrite H. np. Qed.
-Theorem lookup_acm_size_nofuel h : nofuel (lookup_acm_size h).
+Theorem lookup_acm_size_nopanic fx h : fx_bounds fx = true -> nopanic (lookup_acm_size fx h).
+Proof. intros H. unfold lookup_acm_size. rewrite H. np. Qed.
+Theorem lookup_acm_size_nofuel fx h : nofuel (lookup_acm_size fx h).
 Proof. unfold lookup_acm_size. nf. Qed.
-Lemma lookup_acm_size_panics : run (lookup_acm_size (repeat 0 16)) (repeat 0 16) = RPanic.
+Lemma lookup_acm_size_panics : run (lookup_acm_size legacy (repeat 0 16)) (repeat 0 16) = RPanic.
 Proof. vm_compute. reflexivity. Qed.
-Lemma lookup_acm_size_short h : lenZ h < 32 -> forall s, lookup_acm_size h s = RPanic.
+Lemma lookup_acm_size_short h : lenZ h < 32 -> forall s, lookup_acm_size legacy h s = RPanic.
+Proof.
+  intros H s. unfold lookup_acm_size. destruct (has_len h 32) eqn:E; [apply has_len_true in E; lia | reflexivity].
+Qed.
+Lemma lookup_acm_size_short_err h : lenZ h < 32 -> forall s, lookup_acm_size faithful h s = RErr E_FIX s.
 Proof.
   intros H s. unfold lookup_acm_size. destruct (has_len h 32) eqn:E; [apply has_len_true in E; lia | reflexivity].
 Qed.
@@ -446,32 +454,32 @@ Theorem acm_info_nopanic fx t : nopanic (acm_info fx t). Proof. unfold acm_info.
 Theorem acm_info_nofuel fx t : nofuel (acm_info fx t). Proof. unfold acm_info. nf. Qed.
 (** user area: 48 zero bytes (all list offsets 0); module: Chipsets.Count = 0x08000000 *)
 Lemma acm_info_allocates :
-  2147483648 <= res_alloc (run (acm_info faithful [0; 0; 0; 8]) (repeat 0 48)).
+  2147483648 <= res_alloc (run (acm_info legacy [0; 0; 0; 8]) (repeat 0 48)).
 Proof. vm_compute. discriminate. Qed.
 
 (** * TXT register space (pkg/tools/txt.go) *)
 
 Ltac np_slices :=
   repeat first
-  [ (apply nopanic_slice_from; lia)
+  [ (apply nopanic_slice_at; assumption)
   | apply nopanic_ret | apply nopanic_fail | apply nopanic_read_n | apply nopanic_read_le | apply nopanic_seek
   | match goal with |- nopanic (bind _ _) => apply nopanic_bind; [ | intros ? ] end
   | rd_case ].
 
-Theorem parse_txt_regs_nopanic d : 816 <= lenZ d -> nopanic (parse_txt_regs d).
+Theorem parse_txt_regs_nopanic fx d : fx_bounds fx = true -> nopanic (parse_txt_regs fx d).
 Proof. intros H. unfold parse_txt_regs. np_slices. Qed.
-Theorem parse_txt_regs_nofuel d : nofuel (parse_txt_regs d).
+Theorem parse_txt_regs_nofuel fx d : nofuel (parse_txt_regs fx d).
 Proof. unfold parse_txt_regs. nf. Qed.
-Lemma parse_txt_regs_panics : run (parse_txt_regs (repeat 0 16)) (repeat 0 16) = RPanic.
+Lemma parse_txt_regs_panics : run (parse_txt_regs legacy (repeat 0 16)) (repeat 0 16) = RPanic.
 Proof. vm_compute. reflexivity. Qed.
 
 Theorem parse_bios_data_nopanic : nopanic parse_bios_data. Proof. unfold parse_bios_data. np. Qed.
 Theorem parse_bios_data_nofuel : nofuel parse_bios_data. Proof. unfold parse_bios_data. nf. Qed.
 
-Theorem read_acm_status_nopanic d : 808 <= lenZ d -> nopanic (read_acm_status d).
+Theorem read_acm_status_nopanic fx d : fx_bounds fx = true -> nopanic (read_acm_status fx d).
 Proof. intros H. unfold read_acm_status. np_slices. Qed.
-Theorem read_acm_status_nofuel d : nofuel (read_acm_status d). Proof. unfold read_acm_status. nf. Qed.
-Lemma read_acm_status_panics : run (read_acm_status (repeat 0 16)) (repeat 0 16) = RPanic.
+Theorem read_acm_status_nofuel fx d : nofuel (read_acm_status fx d). Proof. unfold read_acm_status. nf. Qed.
+Lemma read_acm_status_panics : run (read_acm_status legacy (repeat 0 16)) (repeat 0 16) = RPanic.
 Proof. vm_compute. reflexivity. Qed.
 
 Theorem read_raw64_at_nopanic d o : nopanic (read_raw64_at d o). Proof. unfold read_raw64_at. np. Qed.
@@ -479,60 +487,60 @@ Theorem read_raw64_at_nofuel d o : nofuel (read_raw64_at d o). Proof. unfold rea
 
 (** * pkg/registers: Read*, ReadTXTRegisters *)
 
-Definition reg_ok (d : list Z) (e : Z * Z * bool) : Prop :=
-  let '(off, _, sl) := e in sl = true -> off <= lenZ d.
-
-Lemma read_reg_nopanic d e : reg_ok d e -> nopanic (read_reg d e).
+Lemma read_reg_nopanic fx d e : fx_bounds fx = true -> nopanic (read_reg fx d e).
 Proof.
-  destruct e as [[off w] sl]. cbn [reg_ok]. intros H. unfold read_reg.
-  destruct sl; [specialize (H eq_refl)|]; np_slices.
+  destruct e as [[off w] sl]. intros H. unfold read_reg. destruct sl; np_slices.
 Qed.
-Lemma read_reg_nofuel d e : nofuel (read_reg d e).
+Lemma read_reg_nofuel fx d e : nofuel (read_reg fx d e).
 Proof. destruct e as [[off w] sl]. unfold read_reg. nf. Qed.
 
-Lemma read_txt_loop_nopanic d : forall tbl n acc, Forall (reg_ok d) tbl -> nopanic (read_txt_loop d tbl n acc).
+Lemma read_txt_loop_nopanic fx d : fx_bounds fx = true -> forall tbl n acc, nopanic (read_txt_loop fx d tbl n acc).
 Proof.
-  induction tbl as [|e t IH]; intros n acc HF s; cbn [read_txt_loop].
+  intros Hfx. induction tbl as [|e t IH]; intros n acc s; cbn [read_txt_loop].
   - destruct (0 <? n); discriminate.
-  - inversion HF; subst. pose proof (read_reg_nopanic d e H1 s) as Hp.
-    destruct (read_reg d e s); try congruence; now apply IH.
+  - pose proof (read_reg_nopanic fx d e Hfx s) as Hp.
+    destruct (read_reg fx d e s); try congruence; apply IH.
 Qed.
-Lemma read_txt_loop_nofuel d : forall tbl n acc, nofuel (read_txt_loop d tbl n acc).
+Lemma read_txt_loop_nofuel fx d : forall tbl n acc, nofuel (read_txt_loop fx d tbl n acc).
 Proof.
   induction tbl as [|e t IH]; intros n acc s; cbn [read_txt_loop].
   - destruct (0 <? n); discriminate.
-  - pose proof (read_reg_nofuel d e s) as Hp.
-    destruct (read_reg d e s); try congruence; apply IH.
+  - pose proof (read_reg_nofuel fx d e s) as Hp.
+    destruct (read_reg fx d e s); try congruence; apply IH.
 Qed.
 
-Lemma txt_table_ok d : 1024 <= lenZ d -> Forall (reg_ok d) txt_reg_table.
-Proof.
-  intros H. unfold txt_reg_table. repeat constructor; cbn [reg_ok]; intros; lia.
-Qed.
-
-Theorem read_txt_registers_nopanic d : 1024 <= lenZ d -> nopanic (read_txt_registers d).
-Proof. intros H. unfold read_txt_registers. apply read_txt_loop_nopanic. now apply txt_table_ok. Qed.
-Theorem read_txt_registers_nofuel d : nofuel (read_txt_registers d).
+Theorem read_txt_registers_nopanic fx d : fx_bounds fx = true -> nopanic (read_txt_registers fx d).
+Proof. intros H. unfold read_txt_registers. now apply read_txt_loop_nopanic. Qed.
+Theorem read_txt_registers_nofuel fx d : nofuel (read_txt_registers fx d).
 Proof. unfold read_txt_registers. apply read_txt_loop_nofuel. Qed.
-Lemma read_txt_registers_panics : run (read_txt_registers (repeat 0 16)) (repeat 0 16) = RPanic.
+Lemma read_txt_registers_panics : run (read_txt_registers legacy (repeat 0 16)) (repeat 0 16) = RPanic.
 Proof. vm_compute. reflexivity. Qed.
 
-(** the k-th Read* function does not panic when the image reaches the register offset *)
-Theorem read_reg_k_nopanic d k e :
-  nth_error txt_reg_table (Z.to_nat k) = Some e -> fst (fst e) <= lenZ d -> nopanic (read_reg_k d k).
+(** every Read* function (and an index outside the table) returns a value or an error *)
+Theorem read_reg_k_nopanic fx d k : fx_bounds fx = true -> nopanic (read_reg_k fx d k).
 Proof.
-  intros Hk Hl. unfold read_reg_k. rewrite Hk. apply read_reg_nopanic.
-  destruct e as [[off w] sl]. cbn in *. intros; lia.
+  intros H. unfold read_reg_k. destruct (nth_error _ _); [now apply read_reg_nopanic | apply nopanic_fail].
 Qed.
-Theorem read_reg_k_nofuel d k : nofuel (read_reg_k d k).
+Theorem read_reg_k_nofuel fx d k : nofuel (read_reg_k fx d k).
 Proof. unfold read_reg_k. destruct (nth_error _ _); [apply read_reg_nofuel | apply nofuel_fail]. Qed.
-(** ... and it does panic when it is a slicing reader and the image is shorter *)
+(** ... before the repair a slicing reader panicked when the image was shorter than its offset *)
 Theorem read_reg_k_panics d k off w :
   nth_error txt_reg_table (Z.to_nat k) = Some (off, w, true) -> lenZ d < off ->
-  forall s, read_reg_k d k s = RPanic.
+  forall s, read_reg_k legacy d k s = RPanic.
 Proof.
-  intros Hk Hl s. unfold read_reg_k. rewrite Hk. unfold read_reg, bind, slice_from.
+  intros Hk Hl s. unfold read_reg_k. rewrite Hk. unfold read_reg, bind, slice_at, slice_from. cbn [fx_bounds legacy].
   destruct (has_len d off) eqn:E; [apply has_len_true in E; lia | reflexivity].
+Qed.
+(** ... and now the read fails with io.EOF *)
+Theorem read_reg_k_short_eof d k off w sl :
+  nth_error txt_reg_table (Z.to_nat k) = Some (off, w, sl) -> 0 < w -> 0 <= off -> lenZ d <= off ->
+  forall s, read_reg_k faithful d k s = RErr E_EOF (tick (set_rest s [])).
+Proof.
+  intros Hk Hw Ho Hl s. unfold read_reg_k. rewrite Hk. unfold read_reg, bind, slice_at. cbn [fx_bounds faithful].
+  assert (HD : dropZ d off = []).
+  { pose proof (dropZ_lenZ d off Ho) as HL. destruct (dropZ d off); [reflexivity|]. unfold lenZ in *. cbn [length] in HL. lia. }
+  destruct sl; unfold seek, read_n; cbn [set_rest s_rest]; rewrite HD;
+    (destruct (w <=? 0) eqn:E; [apply Z.leb_le in E; lia | reflexivity]).
 Qed.
 
 (** * ValueFromBytes *)
@@ -635,12 +643,12 @@ Qed.
 Theorem bytes_range_total l a b s : bytes_range l a b s <> RPanic /\ bytes_range l a b s <> RFuel.
 Proof. unfold bytes_range. destruct (_ || _); split; discriminate. Qed.
 
-Theorem decrypt_frame_nopanic pw d : (pw = true -> 12 <= lenZ d) -> nopanic (decrypt_frame pw d).
+Theorem decrypt_frame_nopanic fx pw d : fx_bounds fx = true -> nopanic (decrypt_frame fx pw d).
 Proof.
-  intros H. unfold decrypt_frame. destruct pw; [|apply nopanic_ret].
-  specialize (H eq_refl). apply has_len_true in H. rewrite H. apply nopanic_ret.
+  intros H. unfold decrypt_frame. rewrite H. destruct pw; [|apply nopanic_ret].
+  destruct (has_len d 12); [apply nopanic_ret | apply nopanic_fail].
 Qed.
-Lemma decrypt_frame_panics : run (decrypt_frame true [1; 2; 3]) [1; 2; 3] = RPanic.
+Lemma decrypt_frame_panics : run (decrypt_frame legacy true [1; 2; 3]) [1; 2; 3] = RPanic.
 Proof. vm_compute. reflexivity. Qed.
 
 (** * Steps and allocation of the straight-line decoders
@@ -659,6 +667,8 @@ Lemma cost_panic {A} K : cost K (@panic A). Proof. intros s; exact I. Qed.
 Lemma cost_seek K w o : 0 <= K -> cost K (seek w o). Proof. intros H s; cbn; lia. Qed.
 Lemma cost_slice_from K w o : 0 <= K -> cost K (slice_from w o).
 Proof. intros H s. unfold slice_from. destruct (has_len w o); cbn; auto; lia. Qed.
+Lemma cost_slice_at K fx w o : 0 <= K -> cost K (slice_at fx w o).
+Proof. intros H. unfold slice_at. destruct (fx_bounds fx); [now apply cost_seek | now apply cost_slice_from]. Qed.
 Lemma cost_read_n K n : 1 <= K -> cost K (read_n n).
 Proof.
   intros H s. unfold read_n. destruct (n <=? 0); [cbn; lia|]. destruct (s_rest s); [cbn; lia|].
@@ -681,6 +691,7 @@ Ltac cst := repeat first
   | match goal with |- cost _ (bind (read_n _) _) => apply (cost_bind _ 1); [apply cost_read_n; lia | lia | intros ?] end
   | match goal with |- cost _ (bind (seek _ _) _) => apply (cost_bind _ 0); [apply cost_seek; lia | lia | intros ?] end
   | match goal with |- cost _ (bind (slice_from _ _) _) => apply (cost_bind _ 0); [apply cost_slice_from; lia | lia | intros ?] end
+  | match goal with |- cost _ (bind (slice_at _ _ _) _) => apply (cost_bind _ 0); [apply cost_slice_at; lia | lia | intros ?] end
   | match goal with |- cost _ (bind (catch_eof (read_n _) _) _) => apply (cost_bind _ 1); [apply cost_catch_eof, cost_read_n; lia | lia | intros ?] end
   | (apply cost_read_le; lia) | (apply cost_read_n; lia)
   | match goal with |- cost _ (bind (if ?b then _ else _) _) => destruct b end
@@ -695,27 +706,27 @@ Proof.
   - unfold parse_policy2. cst.
   - apply cost_fail; lia.
 Qed.
-Theorem parse_txt_regs_cost d : cost 22 (parse_txt_regs d). Proof. unfold parse_txt_regs. cst. Qed.
+Theorem parse_txt_regs_cost fx d : cost 22 (parse_txt_regs fx d). Proof. unfold parse_txt_regs. cst. Qed.
 Theorem parse_bios_data_cost : cost 8 parse_bios_data.
 Proof. unfold parse_bios_data. cst. Qed.
-Theorem read_acm_status_cost d : cost 1 (read_acm_status d). Proof. unfold read_acm_status. cst. Qed.
+Theorem read_acm_status_cost fx d : cost 1 (read_acm_status fx d). Proof. unfold read_acm_status. cst. Qed.
 Theorem read_raw64_at_cost d o : cost 1 (read_raw64_at d o). Proof. unfold read_raw64_at. cst. Qed.
-Theorem lookup_acm_size_cost h : cost 1 (lookup_acm_size h). Proof. unfold lookup_acm_size. cst. Qed.
+Theorem lookup_acm_size_cost fx h : cost 1 (lookup_acm_size fx h). Proof. unfold lookup_acm_size. cst. Qed.
 Theorem value_from_bytes_cost id b : cost 1 (value_from_bytes id b). Proof. unfold value_from_bytes. cst. Qed.
-Lemma read_reg_cost d e : cost 1 (read_reg d e).
+Lemma read_reg_cost fx d e : cost 1 (read_reg fx d e).
 Proof. destruct e as [[off w] sl]. unfold read_reg. destruct sl; cst. Qed.
-Theorem read_reg_k_cost d k : cost 1 (read_reg_k d k).
+Theorem read_reg_k_cost fx d k : cost 1 (read_reg_k fx d k).
 Proof. unfold read_reg_k. destruct (nth_error _ _); [apply read_reg_cost | apply cost_fail; lia]. Qed.
-Lemma read_txt_loop_cost d : forall tbl n acc, cost (Z.of_nat (length tbl)) (read_txt_loop d tbl n acc).
+Lemma read_txt_loop_cost fx d : forall tbl n acc, cost (Z.of_nat (length tbl)) (read_txt_loop fx d tbl n acc).
 Proof.
   induction tbl as [|e t IH]; intros n acc s; cbn [read_txt_loop length].
   - destruct (0 <? n); cbn; lia.
-  - pose proof (read_reg_cost d e s) as Hc. destruct (read_reg d e s) as [v s1|c s1| |]; auto.
-    + specialize (IH n (rev_append v acc) s1). destruct (read_txt_loop d t n _ s1); auto; lia.
-    + specialize (IH (n + 1) acc s1). destruct (read_txt_loop d t _ acc s1); auto; lia.
+  - pose proof (read_reg_cost fx d e s) as Hc. destruct (read_reg fx d e s) as [v s1|c s1| |]; auto.
+    + specialize (IH n (rev_append v acc) s1). destruct (read_txt_loop fx d t n _ s1); auto; lia.
+    + specialize (IH (n + 1) acc s1). destruct (read_txt_loop fx d t _ acc s1); auto; lia.
 Qed.
-Theorem read_txt_registers_cost d : cost 16 (read_txt_registers d).
-Proof. unfold read_txt_registers. apply (read_txt_loop_cost d txt_reg_table 0 []). Qed.
+Theorem read_txt_registers_cost fx d : cost 16 (read_txt_registers fx d).
+Proof. unfold read_txt_registers. apply (read_txt_loop_cost fx d txt_reg_table 0 []). Qed.
 
 (** from [cost] to the statement about a run *)
 Lemma cost_run {A} K (r : rd A) input :
@@ -964,14 +975,14 @@ Proof.
   destruct (caps_loop _ _) as [p s'|c s'| |]; cbn [ret res_steps res_alloc s_steps s_alloc] in *; unfold lenZ; lia.
 Qed.
 
-(** * LCP: the panic of the faithful decoder comes from one site only *)
+(** * LCP: the panic of the decoder before the repair came from one site only *)
 
-Lemma elt_custom_panic_size size s : elt_custom faithful size s = RPanic -> size < 32.
+Lemma elt_custom_panic_size size s : elt_custom legacy size s = RPanic -> size < 32.
 Proof.
-  unfold elt_custom. cbn [fx_custom_min faithful andb].
+  unfold elt_custom. cbn [fx_custom_min legacy andb].
   intros H. destruct (size - 16 - 16 <? 0) eqn:E; [apply Z.ltb_lt in E; lia|]. exfalso. revert H.
   assert (N : nopanic (d1 <- read_le 4;; d2 <- read_le 2;; d3 <- read_le 2;; d4 <- read_le 2;; d5 <- read_n 6;;
-                       cap_guard faithful (size - 16 - 16);;; alloc_chk (size - 16 - 16) 1;;;
+                       cap_guard legacy (size - 16 - 16);;; alloc_chk (size - 16 - 16) 1;;;
                        dt <- read_slice (size - 16 - 16);; ret ([d1; d2; d3; d4] ++ d5 ++ [lenZ dt] ++ dt))).
   { np. apply nopanic_alloc_chk. exact E. }
   apply N.
@@ -996,8 +1007,8 @@ Section PanicSite.
   Proof. unfold policy_data. np; first [apply nopanic_policy_list1_g | apply nopanic_policy_list2_g]. Qed.
 End PanicSite.
 
-(** the candidate fix (reject Size < 32) changes nothing except on the inputs
-    on which the faithful decoder panics *)
+(** the repair 6dfa3ec (reject Size < 32) changes nothing except on the inputs
+    on which the decoder used to panic *)
 Definition agree {A} (r1 r2 : rd A) : Prop := forall s, r1 s = RPanic \/ r1 s = r2 s.
 
 Lemma agree_refl {A} (r : rd A) : agree r r. Proof. intros s; now right. Qed.
@@ -1027,22 +1038,22 @@ Proof.
   apply agree_loop. intros x. apply agree_bind; [exact Hb | intros; apply agree_refl].
 Qed.
 
-Definition fix_custom : fixes := mkFx true false.
+Definition fix_custom : fixes := mkFx true false false.
 
 (** [agree_refl] only where both sides are syntactically the same reader (a
     failing unification of two large decoders would normalise both) *)
 Ltac ag_same := match goal with |- agree ?a ?b => constr_eq a b; apply agree_refl end.
 Ltac ag_prefix := repeat (apply agree_bind; [ag_same | intros ?]).
 
-Lemma agree_elt_custom size : agree (elt_custom faithful size) (elt_custom fix_custom size).
+Lemma agree_elt_custom size : agree (elt_custom legacy size) (elt_custom fix_custom size).
 Proof.
-  unfold elt_custom, cap_guard. cbn [fx_custom_min fx_cap faithful fix_custom andb].
+  unfold elt_custom, cap_guard. cbn [fx_custom_min fx_cap legacy fix_custom andb].
   ag_prefix.
   destruct (size - 16 - 16 <? 0) eqn:E; [|ag_same].
   intros s. left. unfold bind, alloc_chk. rewrite E. reflexivity.
 Qed.
 
-Lemma agree_element : agree (element faithful) (element fix_custom).
+Lemma agree_element : agree (element legacy) (element fix_custom).
 Proof.
   unfold element. ag_prefix.
   apply agree_bind; [|intros; apply agree_refl].
@@ -1050,7 +1061,7 @@ Proof.
   apply agree_elt_custom.
 Qed.
 
-Theorem policy_data_fix_conservative : agree (policy_data faithful) (policy_data fix_custom).
+Theorem policy_data_fix_conservative : agree (policy_data legacy) (policy_data fix_custom).
 Proof.
   unfold policy_data. ag_prefix.
   apply agree_bind; [|intros; apply agree_refl].
@@ -1059,7 +1070,7 @@ Proof.
     apply agree_bind; [|intros; apply agree_refl].
     unfold list1_loop. apply agree_bind; [|intros; apply agree_refl].
     apply agree_loop. intros x. apply agree_bind; [apply agree_element | intros; apply agree_refl].
-  - unfold policy_list2, cap_guard. cbn [fx_cap faithful fix_custom andb]. ag_prefix.
+  - unfold policy_list2, cap_guard. cbn [fx_cap legacy fix_custom andb]. ag_prefix.
     apply agree_bind; [|intros; apply agree_refl].
     apply agree_repeat_n. apply agree_bind; [apply agree_element | intros; apply agree_refl].
 Qed.
@@ -1652,50 +1663,61 @@ Lemma P_policy_data_terminates : forall fx d,
   run (policy_data fx) d <> RFuel /\ res_steps (run (policy_data fx) d) <= lenZ d + 256.
 Proof. intros. split; [apply policy_data_nofuel | apply policy_data_steps]. Qed.
 
-Lemma P_policy_data_refuted : exists d, lenZ d = 80 /\ run (policy_data faithful) d = RPanic.
-Proof. exists (custom_witness [20; 0; 0; 0]). split; [reflexivity | exact policy_data_panics]. Qed.
-
+(** the code as it is: total *)
 Lemma P_policy_data_partial : forall fx d, fx_custom_min fx = true -> value_or_error (run (policy_data fx) d).
 Proof. intros fx d H. apply voe_run; [now apply policy_data_nopanic | apply policy_data_nofuel]. Qed.
+Lemma P_policy_data_total : forall d, value_or_error (run (policy_data faithful) d).
+Proof. intros d. now apply P_policy_data_partial. Qed.
+
+(** ... which rests on the size check of 6dfa3ec: without it the 80-byte witness panics *)
+Lemma P_policy_data_needs_size_check : exists d, lenZ d = 80 /\ run (policy_data legacy) d = RPanic /\
+  outcome_of (run (policy_data faithful) d) = Err E_FIX.
+Proof. exists (custom_witness [20; 0; 0; 0]). split; [reflexivity | split; [exact policy_data_panics | vm_compute; reflexivity]]. Qed.
 
 Lemma P_policy_data_panic_site :
-  (forall size s, elt_custom faithful size s = RPanic -> size < 32) /\
+  (forall size s, elt_custom legacy size s = RPanic -> size < 32) /\
   (forall fx, (forall size, nopanic (elt_custom fx size)) -> forall d, run (policy_data fx) d <> RPanic).
 Proof. split; [exact elt_custom_panic_size | intros fx H d; now apply nopanic_policy_data_g]. Qed.
 
 Lemma P_policy_data_fix_conservative : forall d,
-  run (policy_data faithful) d = RPanic \/ run (policy_data faithful) d = run (policy_data fix_custom) d.
+  run (policy_data legacy) d = RPanic \/ run (policy_data legacy) d = run (policy_data fix_custom) d.
 Proof. intros d. apply policy_data_fix_conservative. Qed.
 
-Lemma P_policy_data_alloc_refuted : exists d, lenZ d = 80 /\
-  2147483648 <= res_alloc (run (policy_data faithful) d).
-Proof. exists (custom_witness [0; 0; 0; 64]). vm_compute. split; [reflexivity | discriminate]. Qed.
+Lemma P_policy_data_alloc : forall d, res_alloc (run (policy_data faithful) d) <= 55 * lenZ d + 3164040.
+Proof. intros d. now apply policy_data_alloc. Qed.
+Lemma P_policy_data_alloc_needs_cap : exists d, lenZ d = 80 /\
+  2147483648 <= res_alloc (run (policy_data legacy) d) /\ res_alloc (run (policy_data faithful) d) = 72.
+Proof. exists (custom_witness [0; 0; 0; 64]). vm_compute. repeat split; try reflexivity. discriminate. Qed.
 
-Lemma P_lookup_partial : forall h, 32 <= lenZ h ->
-  value_or_error (run (lookup_acm_size h) h) /\ res_steps (run (lookup_acm_size h) h) <= 1 /\
-  res_alloc (run (lookup_acm_size h) h) = 0.
+Lemma P_lookup_total : forall h,
+  value_or_error (run (lookup_acm_size faithful h) h) /\ res_steps (run (lookup_acm_size faithful h) h) <= 1 /\
+  res_alloc (run (lookup_acm_size faithful h) h) = 0.
 Proof.
-  intros h H. apply cost_total_run; [lia | now apply lookup_acm_size_nopanic | apply lookup_acm_size_nofuel | apply lookup_acm_size_cost].
+  intros h. apply cost_total_run; [lia | now apply lookup_acm_size_nopanic | apply lookup_acm_size_nofuel | apply lookup_acm_size_cost].
 Qed.
-Lemma P_lookup_refuted : exists h, lenZ h = 16 /\ run (lookup_acm_size h) h = RPanic.
-Proof. exists (repeat 0 16). split; [reflexivity | exact lookup_acm_size_panics]. Qed.
-Lemma P_lookup_short : forall h, lenZ h < 32 -> run (lookup_acm_size h) h = RPanic.
+Lemma P_lookup_short_error : forall h, lenZ h < 32 -> outcome_of (run (lookup_acm_size faithful h) h) = Err E_FIX.
+Proof. intros h H. unfold run. now rewrite lookup_acm_size_short_err. Qed.
+Lemma P_lookup_needs_length_check : forall h, lenZ h < 32 -> run (lookup_acm_size legacy h) h = RPanic.
 Proof. intros h H. now apply lookup_acm_size_short. Qed.
 
 Lemma P_acm_info_total : forall fx total user, value_or_error (run (acm_info fx total) user).
 Proof. intros. apply voe_run; [apply acm_info_nopanic | apply acm_info_nofuel]. Qed.
-Lemma P_acm_info_alloc_refuted : exists total user, lenZ total = 4 /\ lenZ user = 48 /\
-  2147483648 <= res_alloc (run (acm_info faithful total) user).
-Proof. exists [0; 0; 0; 8], (repeat 0 48). vm_compute. repeat split; discriminate. Qed.
+Lemma P_acm_info_alloc : forall total user,
+  res_alloc (run (acm_info faithful total) user) <= 5 * Z.max (lenZ user) (lenZ total) + 262140.
+Proof. intros. now apply acm_info_alloc. Qed.
+Lemma P_acm_info_alloc_needs_cap : exists total user, lenZ total = 4 /\ lenZ user = 48 /\
+  2147483648 <= res_alloc (run (acm_info legacy total) user) /\ res_alloc (run (acm_info faithful total) user) = 4.
+Proof. exists [0; 0; 0; 8], (repeat 0 48). vm_compute. repeat split; try reflexivity; discriminate. Qed.
 
-Lemma P_txt_regs_partial : forall d, 816 <= lenZ d -> value_or_error (run (parse_txt_regs d) d).
-Proof. intros d H. apply voe_run; [now apply parse_txt_regs_nopanic | apply parse_txt_regs_nofuel]. Qed.
-Lemma P_txt_regs_cost : forall d,
-  run (parse_txt_regs d) d <> RFuel /\ res_steps (run (parse_txt_regs d) d) <= 22 /\
-  res_alloc (run (parse_txt_regs d) d) = 0.
-Proof. intros d. split; [apply parse_txt_regs_nofuel | apply cost_run; [lia | apply parse_txt_regs_cost]]. Qed.
-Lemma P_txt_regs_refuted : exists d, lenZ d = 16 /\ run (parse_txt_regs d) d = RPanic.
-Proof. exists (repeat 0 16). split; [reflexivity | exact parse_txt_regs_panics]. Qed.
+Lemma P_txt_regs_total : forall d,
+  value_or_error (run (parse_txt_regs faithful d) d) /\ res_steps (run (parse_txt_regs faithful d) d) <= 22 /\
+  res_alloc (run (parse_txt_regs faithful d) d) = 0.
+Proof.
+  intros d. apply cost_total_run; [lia | now apply parse_txt_regs_nopanic | apply parse_txt_regs_nofuel | apply parse_txt_regs_cost].
+Qed.
+Lemma P_txt_regs_needs_seek : exists d, lenZ d = 16 /\ run (parse_txt_regs legacy d) d = RPanic /\
+  outcome_of (run (parse_txt_regs faithful d) d) = Err E_EOF.
+Proof. exists (repeat 0 16). split; [reflexivity | split; [exact parse_txt_regs_panics | vm_compute; reflexivity]]. Qed.
 
 Lemma P_bios_data : forall d,
   value_or_error (run parse_bios_data d) /\ res_steps (run parse_bios_data d) <= 8 /\ res_alloc (run parse_bios_data d) = 0.
@@ -1703,14 +1725,15 @@ Proof.
   intros. apply cost_total_run; [lia | apply parse_bios_data_nopanic | apply parse_bios_data_nofuel | apply parse_bios_data_cost].
 Qed.
 
-Lemma P_acm_status_partial : forall d, 808 <= lenZ d ->
-  value_or_error (run (read_acm_status d) d) /\ res_steps (run (read_acm_status d) d) <= 1 /\
-  res_alloc (run (read_acm_status d) d) = 0.
+Lemma P_acm_status_total : forall d,
+  value_or_error (run (read_acm_status faithful d) d) /\ res_steps (run (read_acm_status faithful d) d) <= 1 /\
+  res_alloc (run (read_acm_status faithful d) d) = 0.
 Proof.
-  intros d H. apply cost_total_run; [lia | now apply read_acm_status_nopanic | apply read_acm_status_nofuel | apply read_acm_status_cost].
+  intros d. apply cost_total_run; [lia | now apply read_acm_status_nopanic | apply read_acm_status_nofuel | apply read_acm_status_cost].
 Qed.
-Lemma P_acm_status_refuted : exists d, lenZ d = 16 /\ run (read_acm_status d) d = RPanic.
-Proof. exists (repeat 0 16). split; [reflexivity | exact read_acm_status_panics]. Qed.
+Lemma P_acm_status_needs_seek : exists d, lenZ d = 16 /\ run (read_acm_status legacy d) d = RPanic /\
+  outcome_of (run (read_acm_status faithful d) d) = Err E_EOF.
+Proof. exists (repeat 0 16). split; [reflexivity | split; [exact read_acm_status_panics | vm_compute; reflexivity]]. Qed.
 
 Lemma P_raw64 : forall d off,
   value_or_error (run (read_raw64_at d off) d) /\ res_steps (run (read_raw64_at d off) d) <= 1 /\
@@ -1719,32 +1742,34 @@ Proof.
   intros. apply cost_total_run; [lia | apply read_raw64_at_nopanic | apply read_raw64_at_nofuel | apply read_raw64_at_cost].
 Qed.
 
-Lemma P_readtxt_partial : forall d, 1024 <= lenZ d ->
-  value_or_error (run (read_txt_registers d) d) /\ res_steps (run (read_txt_registers d) d) <= 16 /\
-  res_alloc (run (read_txt_registers d) d) = 0.
+Lemma P_readtxt_total : forall d,
+  value_or_error (run (read_txt_registers faithful d) d) /\ res_steps (run (read_txt_registers faithful d) d) <= 16 /\
+  res_alloc (run (read_txt_registers faithful d) d) = 0.
 Proof.
-  intros d H. apply cost_total_run; [lia | now apply read_txt_registers_nopanic | apply read_txt_registers_nofuel | apply read_txt_registers_cost].
+  intros d. apply cost_total_run; [lia | now apply read_txt_registers_nopanic | apply read_txt_registers_nofuel | apply read_txt_registers_cost].
 Qed.
-Lemma P_readtxt_refuted : exists d, lenZ d = 16 /\ run (read_txt_registers d) d = RPanic.
-Proof. exists (repeat 0 16). split; [reflexivity | exact read_txt_registers_panics]. Qed.
-Lemma P_readreg_partial : forall d k off w sl,
-  nth_error txt_reg_table (Z.to_nat k) = Some (off, w, sl) -> off <= lenZ d ->
-  value_or_error (run (read_reg_k d k) d) /\ res_steps (run (read_reg_k d k) d) <= 1 /\ res_alloc (run (read_reg_k d k) d) = 0.
+Lemma P_readtxt_needs_bounds_check : exists d, lenZ d = 16 /\ run (read_txt_registers legacy d) d = RPanic /\
+  outcome_of (run (read_txt_registers faithful d) d) = Err E_OTHER.
+Proof. exists (repeat 0 16). split; [reflexivity | split; [exact read_txt_registers_panics | vm_compute; reflexivity]]. Qed.
+Lemma P_readreg_total : forall d k,
+  value_or_error (run (read_reg_k faithful d k) d) /\ res_steps (run (read_reg_k faithful d k) d) <= 1 /\
+  res_alloc (run (read_reg_k faithful d k) d) = 0.
 Proof.
-  intros d k off w sl Hk Hl. apply cost_total_run; [lia | | apply read_reg_k_nofuel | apply read_reg_k_cost].
-  eapply read_reg_k_nopanic; [exact Hk | exact Hl].
+  intros d k. apply cost_total_run; [lia | now apply read_reg_k_nopanic | apply read_reg_k_nofuel | apply read_reg_k_cost].
 Qed.
-Lemma P_readreg_seek : forall d k off w,
-  nth_error txt_reg_table (Z.to_nat k) = Some (off, w, false) -> value_or_error (run (read_reg_k d k) d).
+Lemma P_readreg_short_eof : forall d k off w sl,
+  nth_error txt_reg_table (Z.to_nat k) = Some (off, w, sl) -> lenZ d <= off ->
+  outcome_of (run (read_reg_k faithful d k) d) = Err E_EOF.
 Proof.
-  intros d k off w Hk. apply voe_run; [|apply read_reg_k_nofuel].
-  unfold read_reg_k. rewrite Hk. apply read_reg_nopanic. cbn. intros; discriminate.
+  intros d k off w sl Hk Hl. unfold run.
+  assert (HT : 0 < w /\ 0 <= off).
+  { clear Hl. destruct (Z.to_nat k) as [|[|[|[|[|[|[|[|[|[|[|[|[|[|[|[|n]]]]]]]]]]]]]]]]; cbn in Hk;
+      try (inversion Hk; subst; lia). destruct n; discriminate. }
+  destruct HT as [Hw Ho]. now rewrite (read_reg_k_short_eof d k off w sl Hk Hw Ho Hl).
 Qed.
-Lemma P_readreg_short : forall d k off w,
-  nth_error txt_reg_table (Z.to_nat k) = Some (off, w, true) -> lenZ d < off -> run (read_reg_k d k) d = RPanic.
+Lemma P_readreg_needs_bounds_check : forall d k off w,
+  nth_error txt_reg_table (Z.to_nat k) = Some (off, w, true) -> lenZ d < off -> run (read_reg_k legacy d k) d = RPanic.
 Proof. intros d k off w Hk Hl. eapply read_reg_k_panics; eauto. Qed.
-Lemma P_readreg_unknown : forall d k, nth_error txt_reg_table (Z.to_nat k) = None -> value_or_error (run (read_reg_k d k) d).
-Proof. intros d k Hk. apply voe_run; [|apply read_reg_k_nofuel]. unfold read_reg_k. rewrite Hk. apply nopanic_fail. Qed.
 
 Lemma P_value_from_bytes : forall id b,
   value_or_error (run (value_from_bytes id b) b) /\ res_steps (run (value_from_bytes id b) b) <= 1 /\
@@ -1773,14 +1798,16 @@ Proof. intros d. split; [apply local_caps_total | apply local_caps_steps]. Qed.
 Lemma P_bytes_range : forall len a b i, value_or_error (run (bytes_range len a b) i).
 Proof. intros. apply bytes_range_total. Qed.
 
-Lemma P_decrypt_partial : forall pw d, (pw = true -> 12 <= lenZ d) -> value_or_error (run (decrypt_frame pw d) d).
+Lemma P_decrypt_total : forall pw d, value_or_error (run (decrypt_frame faithful pw d) d).
 Proof.
-  intros pw d H. apply voe_run; [now apply decrypt_frame_nopanic|].
-  intros s. unfold decrypt_frame. destruct pw; [destruct (has_len d 12)|]; discriminate.
+  intros pw d. apply voe_run; [now apply decrypt_frame_nopanic|].
+  intros s. unfold decrypt_frame. destruct pw; [destruct (has_len d 12); [|destruct (fx_bounds faithful)]|]; discriminate.
 Qed.
-Lemma P_decrypt_refuted : exists d, lenZ d = 3 /\ run (decrypt_frame true d) d = RPanic.
-Proof. exists [1; 2; 3]. split; [reflexivity | exact decrypt_frame_panics]. Qed.
-Lemma P_decrypt_short : forall d, lenZ d < 12 -> run (decrypt_frame true d) d = RPanic.
+Lemma P_decrypt_short_error : forall d, lenZ d < 12 -> outcome_of (run (decrypt_frame faithful true d) d) = Err E_FIX.
+Proof.
+  intros d H. unfold run, decrypt_frame. destruct (has_len d 12) eqn:E; [apply has_len_true in E; lia | reflexivity].
+Qed.
+Lemma P_decrypt_needs_length_check : forall d, lenZ d < 12 -> run (decrypt_frame legacy true d) d = RPanic.
 Proof.
   intros d H. unfold run, decrypt_frame. destruct (has_len d 12) eqn:E; [apply has_len_true in E; lia | reflexivity].
 Qed.
@@ -1812,26 +1839,28 @@ Proof.
   - split; reflexivity.
 Qed.
 
-(** examples: the hypotheses are satisfiable *)
+(** examples: non-trivial values *)
 Lemma ex_lookup : 32 <= lenZ (repeat 0 24 ++ [2; 1; 0; 0] ++ repeat 0 4) /\
-  outcome_of (run (lookup_acm_size (repeat 0 24 ++ [2; 1; 0; 0] ++ repeat 0 4)) (repeat 0 24 ++ [2; 1; 0; 0] ++ repeat 0 4)) = Ok [1032].
+  outcome_of (run (lookup_acm_size faithful (repeat 0 24 ++ [2; 1; 0; 0] ++ repeat 0 4)) (repeat 0 24 ++ [2; 1; 0; 0] ++ repeat 0 4)) = Ok [1032].
 Proof. vm_compute. split; [discriminate | reflexivity]. Qed.
 (** a well-formed file: one list with one custom element of Size 40 (8 data bytes) *)
 Definition custom_ok : list Z :=
   LCP_SIG ++ [0; 0; 0; 1] ++ [0; 1; 0; 0; 40; 0; 0; 0] ++ [40; 0; 0; 0] ++ [3; 0; 0; 0; 0; 0; 0; 0]
   ++ [239; 190; 173; 222; 1; 0; 2; 0; 3; 0; 1; 2; 3; 4; 5; 6] ++ [205; 205; 205; 205; 205; 205; 205; 205].
-Lemma ex_fixes : fx_custom_min all_fixed = true /\ fx_cap all_fixed = true /\
-  outcome_of (run (policy_data all_fixed) (custom_witness [20; 0; 0; 0])) = Err E_FIX /\
-  outcome_of (run (policy_data all_fixed) (custom_witness [0; 0; 0; 64])) = Err E_FIX /\
-  outcome_of (run (policy_data all_fixed) custom_ok) = outcome_of (run (policy_data faithful) custom_ok) /\
+Lemma ex_fixes : fx_custom_min faithful = true /\ fx_cap faithful = true /\ fx_bounds faithful = true /\
+  outcome_of (run (policy_data faithful) (custom_witness [20; 0; 0; 0])) = Err E_FIX /\
+  outcome_of (run (policy_data faithful) (custom_witness [0; 0; 0; 64])) = Err E_FIX /\
+  outcome_of (run (policy_data faithful) custom_ok) = outcome_of (run (policy_data legacy) custom_ok) /\
   (exists v, outcome_of (run (policy_data faithful) custom_ok) = Ok v) /\
   res_alloc (run (policy_data faithful) custom_ok) = 88.
 Proof. vm_compute. repeat split; try reflexivity. eexists; reflexivity. Qed.
 Lemma ex_readreg : nth_error txt_reg_table (Z.to_nat 4) = Some (1024, 32, true) /\
   nth_error txt_reg_table (Z.to_nat 0) = Some (888, 8, false) /\ nth_error txt_reg_table (Z.to_nat 16) = None.
 Proof. repeat split; reflexivity. Qed.
-Lemma ex_readtxt : 1024 <= lenZ (repeat 7 1056) /\
-  exists v, outcome_of (run (read_txt_registers (repeat 7 1056)) (repeat 7 1056)) = Ok v.
-Proof. split; [vm_compute; discriminate | eexists; vm_compute; reflexivity]. Qed.
-Lemma ex_decrypt : (true = true -> 12 <= lenZ (repeat 1 12)) /\ run (decrypt_frame true (repeat 1 12)) (repeat 1 12) <> RPanic.
-Proof. split; [intros _; vm_compute; discriminate | vm_compute; discriminate]. Qed.
+Lemma ex_readtxt :
+  (exists v, outcome_of (run (read_txt_registers faithful (repeat 7 1056)) (repeat 7 1056)) = Ok v) /\
+  outcome_of (run (read_txt_registers faithful (repeat 7 1055)) (repeat 7 1055)) = Err E_OTHER.
+Proof. split; [eexists; vm_compute; reflexivity | vm_compute; reflexivity]. Qed.
+Lemma ex_decrypt : outcome_of (run (decrypt_frame faithful true (repeat 1 12)) (repeat 1 12)) = Ok [] /\
+  outcome_of (run (decrypt_frame faithful true (repeat 1 11)) (repeat 1 11)) = Err E_FIX.
+Proof. split; vm_compute; reflexivity. Qed.
